@@ -64,6 +64,7 @@ RenderTags(ev) ==
     LET ty == IF ev.key \in {"o", "tpo"} THEN "ordinal" ELSE "cardinal"
         cat == Oracle.cats[ev.locale][ty][ev.tok]
         \* key d is defined (all six forms) in the default locale only: a defaulted plural still follows the rendered locale's rules
+        \* (ev.cty: the Rust type the count was given in - the form depends on the number, not on its type)
         want == CASE ev.key \in {"k", "d"} -> FormText(M(cat, "cardinal"))
                   [] ev.key = "o" -> FormText(M(cat, "ordinal"))
                   [] ev.key = "m" -> FormText(M(FormFor({"one", "other"}, cat), "cardinal"))
